@@ -386,7 +386,7 @@ def diagnose(js):
         ns, ps = r["names"], r["ptrs"]
         if not r["lex_ok"]:
             why.append("%s registry: unrecognised construct in the arrays" % kind)
-        if not ns or ns[-1] != [[], js["sentinel"]] and tuple(ns[-1]) != ([], js["sentinel"]):
+        if not ns or (list(ns[-1][0]), ns[-1][1]) != ([], js["sentinel"] or ""):
             why.append("%s registry: names array does not end with the unguarded sentinel" % kind)
         body = ns[:-1]
         if len(body) != len(ps):
@@ -529,10 +529,11 @@ def check(run):
     gm = mo[pos:]
     gen_bad = [(l, m_, a) for l, m_, a in zip(gen_lines, gm, gen_ans) if m_ != a]
     n_eval += len(gen_lines)
-    for l, m_, a in gen_bad[:1]:
-        kind = "sanitizer" if not a.startswith("ok") else "spec_violation"
-        run.violation("generic:" + l.split("\t")[0], kind,
-                      "snoopy_genericregistry lookup differs from 'first match before the sentinel wins': case %s, implementation %s, model %s" % (l, a, m_),
+    gen_fault = [(l, m_, a) for l, m_, a in gen_bad if not a.startswith("ok")]
+    for l, m_, a in gen_fault[:1]:
+        # every generated array contains the sentinel, so the C loops have a defined behaviour on it: a crash / sanitizer report is concrete
+        run.violation("fault:generic", "sanitizer",
+                      "snoopy_genericregistry_%s faulted on an array that contains the sentinel: case %s, implementation %s, model %s" % (l.split("\t")[0], l, a, m_),
                       {"stream": "generic", "failing_input": {"case": l, "implementation": a, "model": m_}, "cases": [l]})
         nv += 1
     # a configuration that cannot be built at all
@@ -558,6 +559,13 @@ def check(run):
         why = diagnose(js)
         run.violation("proof:%s" % failed, "proof", "proof obligation no longer checks: %s; %s\n%s" % (failed, "; ".join(why + run.notes)[:1500], log[-800:]),
                       {"theorem": failed, "coq_log": log[-3000:], "translator_notes": run.notes, "diagnosis": why})
+    if gen_bad and not gen_fault and nv == 0:
+        # e.g. "last match wins": differs from the model on arrays with duplicates, which the (duplicate-free) registries never are
+        l, m_, a = gen_bad[0]
+        run.violation("corr:generic", "correspondence",
+                      "snoopy_genericregistry_* differs from the model (first match before the sentinel wins) on %d of %d generated arrays, while every lookup in the "
+                      "real registries satisfied spec_C13_ok; first: %s -> implementation %s, model %s" % (len(gen_bad), len(gen_lines), l, a, m_),
+                      {"stream": "generic", "correspondence": "registry.generic", "first_case": l, "model_output": m_, "impl_output": a, "cases": [l]})
     if (mism_arrays or mism_calls) and nv == 0:
         label, defined, l, mm, a = (mism_arrays or mism_calls)[0]
         stream = "arrays" if mism_arrays else "calls"
